@@ -112,6 +112,14 @@ def cases(shard):
                         up = gen.recase(toks, "upper", rng)
                         yield "uses", gen.join_tokens(up), {"toks": up, "exts": exts,
                                                             "cmd": name}
+                # the same use cut off right after each of its tags (what follows a tag -
+                # its parameter, the positional arguments - omitted): the parser accepts
+                # actions left incomplete, and whatever it accepts is in C03/C04's domain
+                for i, t in enumerate(argtoks):
+                    if t[:1] == b":" and i + 1 < len(argtoks):
+                        toks = gen.wrap_use(name, argtoks[:i + 1], list(exts), 0, rng)
+                        yield "uses", gen.join_tokens(toks), {"toks": toks, "exts": exts,
+                                                              "cmd": name, "cut": True}
     elif w == "mut":
         rng = random.Random(shard["rs"])
         g = gen.ScriptGen(rng, maxdepth=2, hostile=0.2, multiline=0.05)
